@@ -43,6 +43,33 @@ INFALLIBLE_EXCEPTIONS = {
 }
 
 
+def double_free_rule(prog, rep, only_files=None):
+    """No object is released twice: inside one function (a release of a path released earlier on some way there, nothing
+    assigned to it in between), and across a failed call -- a callee that releases an argument on its own failure paths
+    while its caller, finding that the call failed, releases the same argument."""
+    # this property quantifies over allocation failures: a second release counts when the way to it has passed the failure edge
+    # of an operation that can fail for lack of memory (other double releases are outside its scope and are not reported here)
+    D = own.DoubleFree(prog, alloc_only=True)
+    n = 0
+    for f in prog.all_funcs():
+        if only_files is not None and f.file not in only_files:
+            continue
+        k, found = D.analyze(f)
+        n += k
+        seen = set()
+        for e, p, first in found:
+            if e.pos in seen:
+                continue
+            seen.add(e.pos)
+            how = "released" if first.callee in D.rel else "released by the failing call %s()" % first.callee
+            rep.bad("DOUBLE-FREE", "%s in %s" % (e.text[:50], f.name), e.where,
+                    "%s was already %s at %s on a path that reaches this release with nothing assigned to it in between" % (show(p), how, first.loc),
+                    function=f.name, construct="double-free:" + show(p))
+        if k and not seen:
+            rep.ok("DOUBLE-FREE", "%s: %d releases" % (f.name, k), f.loc, "none of them releases a path already released on the way")
+    return n
+
+
 def leak_rules(prog, rep, only_files=None):
     """only_files: analyse just the functions defined in these files (acquirers are still discovered over the whole program)."""
     acq = own.discover_acquirers(prog)
@@ -382,6 +409,8 @@ def run(tier):
         reserve_flag_rule(prog, rep)
         infallible_rule(prog, rep)
         reported_rule(prog, rep)
+        if double_free_rule(prog, rep) < 100:
+            rep.defer_broken("DOUBLE-FREE: fewer than 100 release calls found in the library")
         from . import c07
         c07.orphan_rule(prog, rep)     # a queue-resident buffer must not be orphaned when launching its write fails
     rep.notes.append("acquirers discovered from the program: " + ", ".join(sorted(set(acq) - set(own.LIBC_ACQ))))
